@@ -250,3 +250,30 @@ func VerifC01_type2_two_outstanding_runs() {
 	}
 	vReach("two-runs")
 }
+
+// C02 (type 2, caller-chosen salt): whatever salt length a caller of CreateTokenRequestWithBlind
+// picks, a token that FinalizeToken hands out verifies as a type-2 token (RSASSA-PSS, SHA-384,
+// salt length 48); with another salt length it must report an error instead
+func VerifC02_type2_any_salt_length() {
+	vUnwind(8)
+	issuer := t2Issuer()
+	lens := []int{0, 32, 47, 48, 49, 64}
+	salt := vBytesC("salt", 0, 0)
+	n := lens[vSplit(vInt("salt_length", 0, len(lens)-1), 0, len(lens)-1)]
+	salt = vBytesC("salt_bytes", n, n)
+	st, err := NewBasicPublicClient().CreateTokenRequestWithBlind(vBytesC("challenge", 0, 1), vBytes("nonce", 32, 32), issuer.TokenKeyID(), issuer.TokenKey(), vBytes("blind", 256, 256), salt)
+	if err != nil {
+		vReach("refused")
+		return
+	}
+	resp, err := issuer.Evaluate(st.Request())
+	vAssume(err == nil)
+	tok, err := st.FinalizeToken(resp)
+	if err != nil {
+		vAssert(n != 48, "standard-salt-length-finalizes")
+		vReach("finalize-refused")
+		return
+	}
+	vAssert(t2VerifyToken(issuer.TokenKey(), tok.Marshal()), "returned-token-verifies-as-type-2")
+	vReach("finalized")
+}
